@@ -95,6 +95,7 @@ structure InstW where
   lastAcqAt : Nat := 0          -- when that answer was delivered
   lastDeleteFailedAt : Option Nat := none   -- its latest Delete that was refused, lost or not answered in time
   claimedToks : List Nat := []  -- tokens for which the flag was raised
+  promoToks : List Nat := []    -- tokens that promotion callbacks were handed
   ctxs : List CtxW := []
   healthRun : Nat := 0          -- consecutive unhealthy results in the current term
   verifyReadDue : Option Nat := none -- a reconnect notification found the instance leading: its verification's first read is due by then
@@ -105,6 +106,7 @@ structure InstW where
   jitterSuspect : Option (Nat × String) := none  -- a Create that looks like a round without jitter; judged when the clock moves on
   spawns : List Nat := []            -- moments (of the last few seconds) at which an acquisition round or a single takeover attempt of this instance began
   spacingSuspect : Option (Nat × String) := none  -- two Creates of what can only be one round, closer than the smallest backoff; judged when the clock moves on
+  claimDue : Option Nat := none      -- an acquiring write of this (running) instance was acknowledged: it reports leadership by then
   createDebtAt : Option Nat := none  -- a Create call that nothing accounted for when it was logged (the notification that caused it is logged after it, at the same instant)
   createCredit : Int := 0        -- Create calls still covered by what could have started them: one per accepted Start, four per
                                 -- acquisition round (vacancy notification, periodic check that found nothing), one per takeover opportunity
